@@ -243,7 +243,7 @@ class AggGen:
     aggregation layers on top. Avoided by construction: more than 3 aggregating rules per
     head and one head per stratum (F2b needs 11 rewritten rules in a stratum), avg when the
     program contains int64 edge values (N10), rules of an aggregated head's stratum that
-    read the aggregated head (N41), maps (N9), aggregated list/float columns as keys or in
+    read the aggregated head (F2d), maps (N9), aggregated list/float columns as keys or in
     comparisons of later rules."""
 
     def __init__(self, rng, big=False):
@@ -321,7 +321,7 @@ class AggGen:
             p = r.choice(good or usable)
             add_atom(p, join=False, distinct=True)
         elif shape == "repeat":
-            # single atom with a repeated variable (the N40 shape)
+            # single atom with a repeated variable (the F2c shape)
             cands = [p for p in usable if any(self.sig[p].count(t) >= 2 for t in "NA")]
             if not cands:
                 return None
@@ -573,12 +573,12 @@ def witness_f2():
     return {"clauses": cl, "layers": [[2]], "init": init, "pre": [], "features": ["witness-F2"]}
 
 
-def witness_n40():
-    """N40: single-atom body with a repeated variable."""
+def witness_f2c():
+    """F2c: single-atom body with a repeated variable."""
     cl = [agg(1, [V(1), V(2)], [["atom", dc.atom(0, V(1), V(1))]], [1], [["reduce", 2, "count", []]])]
     init = [dc.fact(0, dc.num(1), dc.num(1)), dc.fact(0, dc.num(1), dc.num(2)),
             dc.fact(0, dc.num(2), dc.num(2)), dc.fact(0, dc.num(3), dc.num(1))]
-    return {"clauses": cl, "layers": [[1]], "init": init, "pre": [], "features": ["witness-N40"]}
+    return {"clauses": cl, "layers": [[1]], "init": init, "pre": [], "features": ["witness-F2c"]}
 
 
 def witness_f2b():
@@ -592,12 +592,12 @@ def witness_f2b():
     return {"clauses": cl, "layers": [[1], [11]], "init": init, "pre": [], "features": ["witness-F2b"]}
 
 
-def witness_n41():
-    """N41: a plain rule of the aggregated head's own stratum reads the aggregate."""
+def witness_f2d():
+    """F2d: a plain rule of the aggregated head's own stratum reads the aggregate."""
     cl = [agg(1, [V(1), V(3)], [["atom", dc.atom(0, V(1), V(2))]], [1], [["reduce", 3, "sum", [V(2)]]]),
           dc.clause(dc.atom(1, V(2), V(1)), [["atom", dc.atom(1, V(1), V(2))]])]
     init = [dc.fact(0, dc.num(1), dc.num(2)), dc.fact(0, dc.num(1), dc.num(3)), dc.fact(0, dc.num(2), dc.num(7))]
-    return {"clauses": cl, "layers": [[1]], "init": init, "pre": [], "features": ["witness-N41"]}
+    return {"clauses": cl, "layers": [[1]], "init": init, "pre": [], "features": ["witness-F2d"]}
 
 
 # ------------------------------------------------------------------ rewrite correspondence
@@ -671,7 +671,7 @@ def build_replay(ck, prog, gc, g, v, origin):
 
 PROBES = [("F2b", witness_f2b, "internal predicate names `<head><n>__tmp` collide (p11+1 = p1+11 = p111__tmp): "
            "the 11th aggregating rule of p1 and the rule of p11 share one internal relation"),
-          ("N41", witness_n41, "facts produced by a do-transform are not seen by the other rules of the same "
+          ("F2d", witness_f2d, "facts produced by a do-transform are not seen by the other rules of the same "
            "stratum (h(S,K) :- h(K,S) never fires on the aggregate)")]
 
 
@@ -685,7 +685,7 @@ def run(ck):
         progs.append(json.load(open(path))["program"])
         origin.append("corpus:" + os.path.basename(path))
     ncorpus = len(progs)
-    for _ in range(ck.n(200, 3000)):
+    for _ in range(ck.n(200, 1500)):
         progs.append(gen_program(rng, big=(not ck.quick) and rng.random() < 0.4))
         origin.append("random")
     nrandom = len(progs) - ncorpus
@@ -855,7 +855,7 @@ def run(ck):
         "avg: exact integer sum and correctly rounded quotient; Go's float accumulation is order dependent beyond 2^53 "
         "(known N10) - the generator keeps avg away from such values",
         "main stream avoids by construction: > 3 aggregating rules per head / > 1 aggregated head per stratum (F2b needs 11 "
-        "rewritten rules), rules of the aggregated head's stratum that read it (N41), maps (N9), hash-equal facts (F8)",
+        "rewritten rules), rules of the aggregated head's stratum that read it (F2d), maps (N9), hash-equal facts (F8)",
         "a single-atom body counts one row per matching fact (wildcard columns included), a multi-premise body one row per "
         "binding of its named variables - this asymmetry of the Go code is part of the model and of the observer"])
 
@@ -890,7 +890,7 @@ META = {
             "row lists the emitted facts are exactly one per distinct key with every reducer applied to exactly the rows of "
             "that key and nothing for no rows; under pairwise distinct generated names that no other rule defines, the "
             "internal relation of a rule holds exactly that rule's own body solutions; generated names for one head are "
-            "pairwise distinct; the pre-fix counter (F2), the pre-fix single-atom test (N40) and the non-injective name "
+            "pairwise distinct; the pre-fix counter (F2), the pre-fix single-atom test (F2c) and the non-injective name "
             "scheme (F2b) are refuted by witnesses. Tied to the Go code on every run by evaluating generated programs with "
             "1-3 aggregating rules per head (single/multi-atom bodies, same head twice, aggregation over recursive strata, "
             "two aggregation levels) on the fact-store kinds and judging Go's facts both against the model and with an "
@@ -898,5 +898,5 @@ META = {
     "note": "Trusted: Coq kernel + vm_compute; hand-written model tied to the Go code by differential evaluation (sampled; "
             "exhaustive over a two-rule schema in the thorough tier). Printed-key grouping is modelled as tuple equality. "
             "collect_to_map, float/time/duration reducers, temporal heads are outside. Known: F2b (name collisions from 11 "
-            "rewritten rules), N41 (aggregate not propagated inside its own stratum), N10 (avg beyond 2^53).",
+            "rewritten rules), F2d (aggregate not propagated inside its own stratum), N10 (avg beyond 2^53).",
 }
